@@ -1074,4 +1074,66 @@ theorem srun_measure {c c' : Cfg} {ls : List Label} (h : Run SStep c ls c') :
       | .start _ _ hi => exact startNext_measure c h.1 hi
     simp only [List.length_cons]; omega
 
+/-! ### Every error position lies at or below a null of the completed forest -/
+
+theorem allIdle_nodeAt : ∀ (f : Cfg) (p : Path) (nn : Bool) (res : Res) (st : NodeSt) (ch : Cfg),
+    allIdle f = true → nodeAt f p = some (nn, res, st, ch) → st = .idle
+  | .nil, _, _, _, _, _, _, h => by simp [nodeAt] at h
+  | .cons _ _ _ _ _ _, [], _, _, _, _, _, h => by simp [nodeAt] at h
+  | .cons nn' g res' st' ch' rest, [0], nn, res, st, ch, hi, h => by
+    simp [allIdle] at hi
+    simp [nodeAt] at h
+    rw [← h.2.2.1]; exact hi.1.1
+  | .cons nn' g res' st' ch' rest, 0 :: j :: p, nn, res, st, ch, hi, h => by
+    simp [allIdle] at hi
+    simp [nodeAt] at h
+    exact allIdle_nodeAt ch' (j :: p) nn res st ch hi.1.2 h
+  | .cons nn' g res' st' ch' rest, (i + 1) :: p, nn, res, st, ch, hi, h => by
+    simp [allIdle] at hi
+    simp [nodeAt] at h
+    exact allIdle_nodeAt rest (i :: p) nn res st ch hi.2 h
+
+theorem errpos_null : ∀ (f : Cfg) (v : Val) (i : Nat) (q : Path) (nn : Bool) (res : Res) (st : NodeSt)
+    (ch : Cfg), Inv f → forestVals f = some v → nodeAt f (i :: q) = some (nn, res, st, ch) →
+    (st = .doneErr ∨ st = .failed) → ∃ r, r <+: q ∧ v.at (i :: r) = some .null
+  | .nil, _, _, _, _, _, _, _, _, _, h, _ => by simp [nodeAt] at h
+  | .cons nn' g res' st' ch' rest, v, 0, [], nn, res, st, ch, _, hv, h, hst => by
+    simp [nodeAt] at h
+    obtain ⟨_, _, hs, _⟩ := h
+    subst hs
+    unfold forestVals at hv
+    cases hfr : forestVals rest with
+    | none => rw [hfr] at hv; rcases hst with hst | hst <;> subst hst <;> simp at hv
+    | some vs =>
+      rw [hfr] at hv
+      rcases hst with hst | hst <;> subst hst <;> simp at hv
+      subst hv
+      exact ⟨[], List.prefix_refl _, by simp [Val.at, Val.get]⟩
+  | .cons nn' g res' st' ch' rest, v, 0, j :: p, nn, res, st, ch, ⟨hn, hc, _⟩, hv, h, hst => by
+    simp [nodeAt] at h
+    unfold forestVals at hv
+    split at hv
+    · rename_i w vs hvs
+      simp at hv; subst hv
+      simp only [InvN] at hn
+      by_cases hcmp : ∃ l, res' = .comp l
+      · obtain ⟨r, hr1, hr2⟩ := errpos_null ch' w j p nn res st ch hc (hn.2.2.1 hcmp) h hst
+        exact ⟨j :: r, by simpa using hr1, by simpa [Val.at, Val.get] using hr2⟩
+      · have := allIdle_nodeAt ch' (j :: p) nn res st ch (hn.2.2.2 hcmp) h
+        rcases hst with hst | hst <;> simp [hst] at this
+    · rename_i vs hvs
+      simp at hv; subst hv
+      exact ⟨[], List.nil_prefix, by simp [Val.at, Val.get]⟩
+    · simp at hv
+  | .cons nn' g res' st' ch' rest, v, i + 1, q, nn, res, st, ch, ⟨_, _, hr⟩, hv, h, hst => by
+    simp [nodeAt] at h
+    unfold forestVals at hv
+    cases hfr : forestVals rest with
+    | none => rw [hfr] at hv; cases st' <;> simp at hv
+    | some vs =>
+      rw [hfr] at hv
+      obtain ⟨r, hr1, hr2⟩ := errpos_null rest vs i q nn res st ch hr hfr h hst
+      cases st' <;> simp at hv <;> subst hv <;>
+        exact ⟨r, hr1, by simpa [Val.at, Val.get] using hr2⟩
+
 end Gql.Async
